@@ -30,7 +30,7 @@ def find_codec(an: Analysis):
             collapse = f
         elif len(f.params) == 2 and f.nested and has_while:
             expand = f
-        elif len(f.params) == 1 and any(isinstance(n, ast.Attribute) and n.attr == "from_bytes" for n in ast.walk(f.node)):
+        elif len(f.params) == 1 and _receives_line_table(an, f):
             b2i = f
         elif len(f.params) == 1 and "bytes" in src_names and any(isinstance(n, ast.List) and len(n.elts) == 2 for n in ast.walk(f.node)) \
                 and not any(isinstance(n, ast.Attribute) and n.attr.startswith("co_") for n in ast.walk(f.node)):
@@ -38,6 +38,18 @@ def find_codec(an: Analysis):
     if not (collapse and expand and b2i and i2b):
         raise AnalysisError(f"line-table codec stage functions not all recognised (collapse={collapse}, expand={expand}, bytes_to_items={b2i}, items_to_bytes={i2b})")
     return collapse, expand, b2i, i2b
+
+
+def _receives_line_table(an: Analysis, f: FunctionInfo) -> bool:
+    """Is f the function applied to code.co_lnotab / code.co_linetable in the decode closure?"""
+    for V in ((3, 9), (3, 10)):
+        it, _ = an.interp("from_code", V)
+        for (q, ctx), summ in it.summaries.items():
+            if q == f.qual:
+                for v in summ["args"].values():
+                    if any(a[0] == "src" and a[2] and a[2][0][1] in ("co_lnotab", "co_linetable") and len(a[2]) == 1 for a in v):
+                        return True
+    return False
 
 
 def run(an: Analysis, rep):
@@ -50,10 +62,16 @@ def run(an: Analysis, rep):
         "on tables - items_to_mapping, mapping_to_items, the cursor logic of collapse_items, zero-width entries, no-line runs, "
         "trailing entries - quantifies over integer sequences and is NOT decided by this check (DESIGN section 8)."
     )
-    rep.rule("R10.1", "merge thresholds = split emissions = CPython limits, per format", 4)
+    rep.rule("R10.1", "merge thresholds = split emissions = CPython limits, per format", 6)
     rep.rule("R10.2", "each split loop uses one constant for test, emission and decrement", 3)
     rep.rule("R10.3", "-128 <-> None sentinel applied iff linetable", 4)
     rep.rule("R10.4", "byte pairing (unsigned, signed), stride 2", 4)
+    format_rules(an, rep)
+    rep.assumptions += ["format limits as in Objects/lnotab_notes.txt (reference/contracts.py LINE_LIMITS)"]
+    rep.extra["not_decided"] = "table arithmetic (items_to_mapping, mapping_to_items, cursor logic, zero-width entries, no-line runs, trailing entries)"
+
+
+def format_rules(an: Analysis, rep):
     collapse, expand, b2i, i2b = find_codec(an)
     for fmt, is_lt in FORMATS.items():
         lim = C.LINE_LIMITS[fmt]
@@ -61,8 +79,7 @@ def run(an: Analysis, rep):
         rep.run(r102, an, rep, expand, fmt, is_lt, lim)
         rep.run(r103, an, rep, collapse, expand, fmt, is_lt)
     rep.run(r104, an, rep, b2i, i2b)
-    rep.assumptions += ["format limits as in Objects/lnotab_notes.txt (reference/contracts.py LINE_LIMITS)"]
-    rep.extra["not_decided"] = "table arithmetic (items_to_mapping, mapping_to_items, cursor logic, zero-width entries, no-line runs, trailing entries)"
+    rep.run(r102_siblings, an, rep, expand)
 
 
 def _merge_predicates(collapse: FunctionInfo):
@@ -132,6 +149,22 @@ def r101(an, rep, collapse, expand, fmt, is_lt, lim):
     wantB = {lim["max_bytecode"]}
     wantL = {lim["max_line"], lim["min_line"]}
     w = loc(collapse.module, ifn)
+    # the split loops of expand_items are strict (R10.2), so the entry after a continuation entry always carries a non-zero remainder of the
+    # split quantity; an entry with a zero remainder is a real (zero-width / same-line) entry and must NOT be merged
+    zero_merges = []
+    for b in bdom:
+        if ev(p1, Item(line_offset=0 if is_lt else 7, bytecode_offset=0), Item(line_offset=7 if is_lt else 0, bytecode_offset=b)) and b in wantB:
+            zero_merges.append(f"address delta {b} followed by an entry with address delta 0")
+        if ev(p2, Item(line_offset=0 if is_lt else 7, bytecode_offset=0), Item(line_offset=7 if is_lt else 0, bytecode_offset=b)) and b in wantB and cands[1][0]:
+            zero_merges.append(f"address delta {b} followed by an entry with address delta 0")
+    for l in ldom:
+        for pr in (p1, p2):
+            if ev(pr, Item(line_offset=0, bytecode_offset=6 if is_lt else 0), Item(line_offset=l, bytecode_offset=0 if is_lt else 6)) and l in wantL:
+                zero_merges.append(f"line delta {l} followed by an entry with line delta 0")
+    rep.add("R10.1", f"zero-remainder entries are not merged [{fmt}]", not zero_merges, w,
+            f"collapse_items merges {sorted(set(zero_merges))[:2]}: expand_items never emits that as a split (its loops are strict, the remainder is non-zero), so a "
+            f"real zero entry that CPython's assembler wrote after a full continuation entry is swallowed and the table does not re-encode byte for byte" if zero_merges
+            else "an entry with a zero remainder after a boundary entry is kept as an entry of its own", config=fmt)
     rep.add("R10.1", f"address delta limit [{fmt}]", Bc == Be == wantB, w,
             f"collapse merges at address delta {sorted(Bc)}, expand emits {sorted(Be)}, CPython's limit is {sorted(wantB)}" if Bc == Be == wantB else
             f"[{fmt}] collapse_items merges a continuation entry when the previous address delta is in {sorted(Bc)} (over the format's domain 0..{lim['max_bytecode']}), "
@@ -150,6 +183,13 @@ def _expand_constants(expand: FunctionInfo, is_lt: bool) -> Dict[str, object]:
         if isinstance(st, ast.Assign) and isinstance(st.targets[0], ast.Name):
             try:
                 env[st.targets[0].id] = feval(st.value, env)
+            except Exception:
+                pass
+        elif isinstance(st, ast.Assign) and isinstance(st.targets[0], ast.Tuple) and all(isinstance(t, ast.Name) for t in st.targets[0].elts):
+            try:
+                vals = feval(st.value, env)
+                for t, v in zip(st.targets[0].elts, vals):
+                    env[t.id] = v
             except Exception:
                 pass
     whiles = [n for n in ast.walk(expand.node) if isinstance(n, ast.While)]
@@ -200,6 +240,50 @@ def r102(an, rep, expand, fmt, is_lt, lim):
                 f"while {lp['var']} {'>' if lp['op'].startswith('G') else '<'} {lp['bound']}: emit {lp['emit']}; {lp['var']} -= {lp['dec']}" if ok else
                 f"[{fmt}] the split loop tests against {lp['bound']} ({'strict' if lp['strict'] else 'non-strict'}), emits {lp['emit']} and subtracts {lp['dec']}: "
                 f"the three must be one constant (strict test), otherwise the emitted deltas do not add up to the original or a zero remainder entry is produced", config=fmt)
+
+
+def r102_siblings(an, rep, expand):
+    """The positive and the negative line split loops are the same code up to the constant and the comparison."""
+    import copy
+    whiles = [n for n in ast.walk(expand.node) if isinstance(n, ast.While)]
+    groups = {}
+    for wl in whiles:
+        cmpn = next((c for c in ast.walk(wl.test) if isinstance(c, ast.Compare) and isinstance(c.ops[0], (ast.Gt, ast.Lt, ast.GtE, ast.LtE))), None)
+        if cmpn is None or not isinstance(cmpn.left, ast.Name):
+            continue
+        groups.setdefault(cmpn.left.id, []).append((wl, cmpn))
+
+    def shape(wl, cmpn):
+        bound = ast.dump(cmpn.comparators[0])
+
+        class Norm(ast.NodeTransformer):
+            def generic_visit(self, n):
+                if ast.dump(n) == bound:
+                    return ast.Name("<BOUND>", ast.Load())
+                return super().generic_visit(n)
+
+            def visit_Constant(self, n):
+                if ast.dump(n) == bound:
+                    return ast.Name("<BOUND>", ast.Load())
+                return n
+        body = [Norm().visit(copy.deepcopy(st)) for st in wl.body]
+        return [ast.dump(st) for st in body]
+    n = 0
+    for var, loops in groups.items():
+        if len(loops) == 2:
+            n += 1
+            a, b = shape(*loops[0]), shape(*loops[1])
+            ok = a == b
+            diff = ""
+            if not ok:
+                only_a = [norm_src(st) for st, d in zip(loops[0][0].body, a) if d not in b]
+                only_b = [norm_src(st) for st, d in zip(loops[1][0].body, b) if d not in a]
+                diff = f"the loop at line {loops[0][0].lineno} does `{'; '.join(only_a) or '-'}`, the loop at line {loops[1][0].lineno} does `{'; '.join(only_b) or '-'}`"
+            rep.add("R10.2", f"{expand.qual}::split loops on {var} are mirror images", ok, loc(expand.module, loops[1][0]),
+                    f"both split loops on `{var}` perform the same steps (constant and comparison aside)" if ok else
+                    f"the upward and the downward split of `{var}` differ: {diff}: continuation entries of one direction carry a stale address delta / do not reset it, so large "
+                    f"jumps in that direction re-encode to different bytes")
+    return n
 
 
 def r103(an, rep, collapse, expand, fmt, is_lt):
